@@ -156,6 +156,9 @@ def build_trace(instances, results, profile):
                 idx["out"] = len(trace)
             elif e["ev"] == "panic":
                 trace.append({"ev": "panic", "li": li, "msg": e["msg"]})
+            elif e["ev"] == "optrerun":
+                trace.append({"ev": "optrerun", "li": li, "pi": idx["transopt"], "ok": e["ok"], "tr": e["tr"],
+                              "msg": e.get("msg", "")})
             elif e["ev"] == "rerun":
                 trace.append({"ev": "rerun", "li": li, "pi": idx["ls"], "nsteps": e["nsteps"], "S": e["S"]})
             elif e["ev"] == "base":
